@@ -168,7 +168,10 @@ def layout(L, R, tier):
                                 if not ((isinstance(v, (int, float)) and v == 0)):
                                     bad = bad or (sh, 'limb %d of `%s` (beyond the input) holds %s instead of zero' % (i, outn, str(v)[:60]))
                                 continue
+                            caller = {b.name for b in r.bufs.values()}
                             for (bn, o, s) in support(v):
+                                if bn not in caller:
+                                    continue  # table memory (twiddles) - read-only, not part of the limb geometry
                                 ok = False
                                 for inn, kind in ins:
                                     b = r.bufs[inn]
